@@ -454,6 +454,13 @@ func RunTreeModes(r *vh.Run, name string, t *chainx.Tree, sched [][]int, modes [
 		// one schedule per tree runs with the atomicity probe on the manager's store
 		nd = t.Net.NewProbedNode()
 	}
+	if strings.HasSuffix(name, "/s2") {
+		// one schedule per tree runs with the store over CacheDB(MemDB): the manager must not be
+		// able to tell (C17 is the backends' own property; here the chain on top of them)
+		if nd2, err := t.Net.NewNode(chain.NewCacheDB(chain.NewMemDB())); err == nil {
+			nd = nd2
+		}
+	}
 	c := &vh.Case{Name: name, Model: "chain mgr"}
 	for _, b := range t.Blocks[1:] {
 		c.Op(b.DeclLine(), "ok")
@@ -664,14 +671,22 @@ func runLong(r *vh.Run, rng *vh.RNG) {
 				// a chain past the retarget at height 1500 (ancestor 1000 blocks back, not genesis), a
 				// longer fork that leaves it a few blocks below 1500 and wins, then the first chain
 				// grows and wins back: blocks around 1500 are applied a second time from the store
-				mainLeaf := chainx.LongBranch(trng, t, 0, 1502+trng.Intn(4), 10)
+				// (blocks faster than the 10 s interval: at 1500 the difficulty RISES from its floor, so
+				// a wrong ancestor timestamp is not hidden by the clamp at difficulty 1)
+				mainLeaf := chainx.LongBranch(trng, t, 0, 1502+trng.Intn(4), 8)
 				mp := t.PathFromRoot(mainLeaf)
 				at := mp[1493+trng.Intn(5)]
 				forkLeaf := chainx.LongBranch(trng, t, at, int(t.Blocks[mainLeaf].Height-t.Blocks[at].Height)+2+trng.Intn(3), 7)
-				backLeaf := chainx.LongBranch(trng, t, mainLeaf, int(t.Blocks[forkLeaf].Height-t.Blocks[mainLeaf].Height)+2+trng.Intn(3), 10)
+				backLeaf := chainx.LongBranch(trng, t, mainLeaf, int(t.Blocks[forkLeaf].Height-t.Blocks[mainLeaf].Height)+2+trng.Intn(3), 8)
 				batches(mp)
+				// the fork arrives in two parts: first up to the main chain's height (not yet
+				// sufficiently heavier, so its blocks across the retarget at 1500 stay stored as side
+				// blocks with the header-level states AddBlocks computed for them — through the
+				// ancestor walk that joins the best chain above height 1000), then the rest
 				fp := t.PathFromRoot(forkLeaf)
-				batches(fp[t.Blocks[at].Height:])
+				// (PathFromRoot leaves out genesis: index k holds height k+1)
+				batches(fp[t.Blocks[at].Height-1 : t.Blocks[mainLeaf].Height])
+				batches(fp[t.Blocks[mainLeaf].Height:])
 				bp := t.PathFromRoot(backLeaf)
 				batches(bp[t.Blocks[mainLeaf].Height:])
 				return
